@@ -442,6 +442,42 @@ func (x *c03Env) ruleI() {
 				c.bad("C03.i", key, x.exitPos(g, badExit, r.hit.Node.Pos()), "there is a path from the request to a return (ending here) that neither receives the reply nor clears %s: after an unanswered query the flag stays set and the next two-parameter CSI … R (a late report or Shift/Alt/Ctrl+F3) is swallowed instead of delivered as a key", F.Name())
 			}
 		}
+		// m: the request is armed before the query is written (C03.m)
+		for _, r := range requesters[F] {
+			g := c.P.Graph(r.fi)
+			waits := g.Find(func(n ast.Node) bool { return x.recvField(n) == CH })
+			isArm := func(n ast.Node) bool {
+				return containsNode(n, func(m ast.Node) bool { f, v, ok := x.flagStore(m); return ok && v && f == F })
+			}
+			key := fmt.Sprintf("%s/%s is set before the query is written", r.fi.Name, F.Name())
+			nq, why := 0, ""
+			for _, em := range ExtractEmissions(c.P, []*FuncInfo{r.fi}, vaxisTerminalSink) {
+				if em.G != g {
+					continue
+				}
+				leads := false
+				for _, w := range waits {
+					if g.ReachesAvoiding(em.Loc, w.Loc, nil) {
+						leads = true
+					}
+				}
+				if !leads {
+					continue
+				}
+				nq++
+				if !g.MustPrecede(isArm, em.Loc) && why == "" {
+					why = fmt.Sprintf("%s writes to the terminal (%s) on a path that has not yet stored true into %s: a report that the input goroutine dispatches between the write and the store is not recognised as the awaited reply — it is delivered to the application as a key and the request times out", r.fi.Name, c03Short(em.Call), F.Name())
+				}
+			}
+			switch {
+			case nq == 0:
+				// the query is written elsewhere (by the caller): nothing to order inside this function
+			case why == "":
+				c.ok("C03.m", key, r.hit.Node.Pos(), "every terminal write of %s from which the wait on %s is reachable comes after the store of true on every path (%d writes)", r.fi.Name, CH.Name(), nq)
+			default:
+				c.bad("C03.m", key, r.hit.Node.Pos(), "%s", why)
+			}
+		}
 		// handler side
 		nSend := 0
 		for _, s := range sends {
